@@ -6,6 +6,8 @@ import (
 	"net"
 	"net/netip"
 	"os"
+	"strings"
+	"syscall"
 	"sync"
 	"testing"
 	"time"
@@ -40,6 +42,23 @@ type dgram struct {
 type cycle struct {
 	Hello   dgram     `json:"hello"` // sent from inside OnConnected
 	Batches [][]dgram `json:"batches"`
+	// Stop: how the listener is signalled - "" the channel is closed; "INT", "TERM", "HUP", "USR1", "QUIT" that signal is sent;
+	// "HUP+TERM" / "TERM+INT" two signals are delivered one after the other (buffered channel). The first signal stops it.
+	Stop string `json:"stop,omitempty"`
+}
+
+func stopSignal(q chan os.Signal, how string) {
+	sig := map[string]os.Signal{"INT": syscall.SIGINT, "TERM": syscall.SIGTERM, "HUP": syscall.SIGHUP, "USR1": syscall.SIGUSR1, "QUIT": syscall.SIGQUIT}
+	if how == "" {
+		close(q)
+		return
+	}
+	for _, name := range strings.Split(how, "+") {
+		select {
+		case q <- sig[name]:
+		case <-time.After(2 * time.Second): // nobody is listening to the channel any more
+		}
+	}
 }
 
 type history struct {
@@ -54,6 +73,9 @@ type history struct {
 	// Calls: between the batches of a cycle the client also makes requests (GetDevices / GetTime time out on a silent
 	// broadcast address) - listening and calling share the client
 	Calls bool `json:"calls,omitempty"`
+	// BusyFirst: before cycle N (1-based; 0 = never) the client first tries to listen while ANOTHER socket holds the listen
+	// address: that attempt ends (error or not) without a connected callback; once the address is free the cycle runs as usual
+	BusyFirst int `json:"busy_first,omitempty"`
 }
 
 // outcome of one datagram according to the protocol model
@@ -182,11 +204,54 @@ func run(h history) *rp.Fail {
 				shared = u
 			}
 		}
+		if h.BusyFirst == ci+1 {
+			if holder, err := net.ListenUDP("udp4", dest); err == nil {
+				frec := &recorder{}
+				fq := make(chan os.Signal, 1)
+				fdone := make(chan error, 1)
+				go func() {
+					defer func() {
+						if p := recover(); p != nil {
+							fdone <- fmt.Errorf("PANIC in Listen: %v", p)
+						}
+					}()
+					fdone <- u.Listen(frec, fq)
+				}()
+				select {
+				case err := <-fdone:
+					if err != nil && strings.HasPrefix(err.Error(), "PANIC") {
+						holder.Close()
+						return rp.Failf("uhppote.Listen/panic", "cycle %d: Listen on an address that is in use: %v", ci, err)
+					}
+				case <-time.After(3 * time.Second):
+					// still 'listening' on an address it cannot have bound: stop it
+					close(fq)
+					select {
+					case <-fdone:
+					case <-time.After(3 * time.Second):
+						holder.Close()
+						return rp.Failf("uhppote.Listen/does-not-stop", "cycle %d: Listen on an address that is in use neither failed nor stopped when signalled", ci)
+					}
+				}
+				if c, _ := frec.counts(); c != 0 || frec.connected != 0 {
+					holder.Close()
+					return rp.Failf("uhppote.Listen/connected-callback", "cycle %d: a Listen that could not bind its address reported connected=%d events=%d", ci, frec.connected, c)
+				}
+				holder.Close()
+			}
+		}
 		rec := &recorder{}
 		rec.onConnect = func() { send(cy.Hello) }
-		q := make(chan os.Signal)
+		q := make(chan os.Signal, 2)
 		done := make(chan error, 1)
-		go func() { done <- u.Listen(rec, q) }()
+		go func() {
+			defer func() {
+				if p := recover(); p != nil {
+					done <- fmt.Errorf("PANIC in Listen: %v", p)
+				}
+			}()
+			done <- u.Listen(rec, q)
+		}()
 
 		var wantEvents []outcome
 		wantErrors, either := 0, 0
@@ -242,7 +307,7 @@ func run(h history) *rp.Fail {
 		}
 		time.Sleep(2 * time.Millisecond) // anything delivered twice would show up now
 		// stop
-		close(q)
+		stopSignal(q, cy.Stop)
 		select {
 		case err := <-done:
 			if err != nil {
@@ -351,6 +416,9 @@ func check(h history) *rp.Fail {
 	if h.Calls {
 		ev.Class("history/requests-while-listening", 1)
 	}
+	if h.BusyFirst > 0 && h.BusyFirst <= len(h.Cycles) {
+		ev.Class("history/listen-attempt-on-a-busy-address-first", 1)
+	}
 	ev.Class("datagrams-sent", int64(total))
 	if ev.WantSample(class) {
 		var kinds []string
@@ -408,6 +476,9 @@ func genHistory(t *rapid.T) history {
 	h.Debug = gen.Debug(t, "debug")
 	h.OneClient = rapid.Bool().Draw(t, "one.client")
 	h.Calls = rapid.IntRange(0, 3).Draw(t, "calls") == 0
+	if rapid.IntRange(0, 3).Draw(t, "busy") == 0 {
+		h.BusyFirst = rapid.IntRange(1, 2).Draw(t, "busy.before")
+	}
 	var pool []uint32
 	for i := rapid.IntRange(0, 3).Draw(t, "configured"); i > 0; i-- {
 		s := gen.Serial(t)
@@ -420,7 +491,7 @@ func genHistory(t *rapid.T) history {
 	}
 	n := rapid.IntRange(1, 3).Draw(t, "cycles")
 	for i := 0; i < n; i++ {
-		cy := cycle{Hello: genDatagram(t, pool)}
+		cy := cycle{Hello: genDatagram(t, pool), Stop: rapid.SampledFrom([]string{"", "", "INT", "TERM", "HUP", "USR1", "QUIT", "HUP+TERM", "TERM+INT", "HUP+HUP"}).Draw(t, "stop")}
 		nb := rapid.IntRange(1, 4).Draw(t, "batches")
 		for j := 0; j < nb; j++ {
 			var b []dgram
@@ -467,6 +538,18 @@ func (r *slowRec) OnError(error) bool { return true }
 
 func checkSlow(c slowCase) *rp.Fail {
 	ev.Case("slow-consumer-at-stop", true, fmt.Sprint(c))
+	f := runSlow(c, 1)
+	if f != nil && strings.HasSuffix(f.Fingerprint, "/received-event-dropped-at-stop") {
+		// the only timing assumption: the read loop has picked up the second datagram within the pause - give it 8x as long
+		if f2 := runSlow(c, 8); f2 == nil {
+			ev.Inconclusive(1)
+			return nil
+		}
+	}
+	return f
+}
+
+func runSlow(c slowCase, scale int) *rp.Fail {
 	port, err := farm.FreePort([4]byte{127, 0, 0, 1})
 	if err != nil {
 		return nil
@@ -506,7 +589,7 @@ func checkSlow(c slowCase) *rp.Fail {
 	for i := 0; i < c.Extra; i++ {
 		sender.Write(event(uint32(2 + i)))
 	}
-	time.Sleep(5 * time.Millisecond) // the read loop has picked up the next datagram by now
+	time.Sleep(time.Duration(25*scale) * time.Millisecond) // the read loop has picked up the next datagram by now
 	close(q)
 	time.Sleep(time.Duration(c.HoldMs) * time.Millisecond)
 	close(rec.release)
@@ -538,6 +621,19 @@ func checkSlow(c slowCase) *rp.Fail {
 			return rp.Failf("uhppote.Listen/order-or-duplicate", "events delivered around a stop with a slow consumer: %v (sent 1, then 2..%d in order)", got, 1+c.Extra)
 		}
 		last = ix
+	}
+	// the datagram that the listener had already received when it was signalled (event 2 - it was waiting behind the busy
+	// callback) is a received well-formed event: it is handed to the callback, not dropped
+	if c.Extra >= 1 {
+		seen := false
+		for _, ix := range got {
+			if ix == 2 {
+				seen = true
+			}
+		}
+		if !seen {
+			return rp.Failf("uhppote.Listen/received-event-dropped-at-stop", "event 2 had been received (it was waiting behind the busy callback for event 1) when the listener was signalled; it was never delivered: callbacks %v", got)
+		}
 	}
 	return nil
 }
